@@ -83,6 +83,7 @@ def worker_main(pid, tier, seed, w, nw, outpath, only=None):
         for i in idxs:
             rng = case_rng(pid, seed, tier, i)
             try:
+                _set_pipeline(prop, i)
                 res = prop.run_case(i, rng)
             except Exception:
                 report["harness_errors"].append({"index": i, "tb": traceback.format_exc()[-3000:]})
@@ -106,6 +107,10 @@ def worker_main(pid, tier, seed, w, nw, outpath, only=None):
             if res.sample is not None and len(report["samples"]) < 2:
                 report["samples"].append(res.sample)
         report["nontrivial_sigs"] = sorted(sigs)
+        if getattr(prop, "PIPELINES", False):
+            from . import runner as _r2
+            for k_, v_ in _r2.PIPELINE_STATS.items():
+                report["obs"]["documents_via:" + k_] = report["obs"].get("documents_via:" + k_, 0) + v_
         extra = prop.worker_extra()
         if extra:
             report["extra"] = extra
@@ -288,6 +293,13 @@ def drive(pid, tier, seed, workers=None):
     return EXIT_HELD
 
 
+def _set_pipeline(prop, idx):
+    """Entry-level checks (PIPELINES = True) send a fixed share of their cases through cminx.main instead of calling the
+    Documenter directly; the check's whole oracle then judges the page the command line produced."""
+    from . import runner as _r
+    _r.PIPELINE = _r.pipeline_for(idx) if getattr(prop, "PIPELINES", False) else "documenter"
+
+
 def replay(path):
     with open(path) as f:
         r = json.load(f)
@@ -297,6 +309,7 @@ def replay(path):
     prop = load_prop(pid)
     prop.tier, prop.seed = tier, seed
     prop.setup_worker()
+    _set_pipeline(prop, idx)
     res = prop.run_case(idx, case_rng(pid, seed, tier, idx))
     prop.teardown_worker()
     known_keys = {k["key"] for k in load_known() if k["property"] == pid}
